@@ -31,6 +31,12 @@ theorem emplaceAtomic_int32 (enc : Option Enc) (hk : int32Known enc = true) (bl 
     BaseType.isNumeric, rawOfInt32_ok enc hk bl hbl v hr s, hb0, hge, hmask]
   cases hl <;> simp [ord, toBytesBE_length]
 
+/-- an out-of-range `A_INT32` value is rejected with the library's encode error and nothing is written -/
+theorem emplaceAtomic_int32_reject (enc : Option Enc) (hk : int32Known enc = true) (bl : Nat) (hbl : 1 ≤ bl) (v : Int)
+    (hr : ¬ int32InRange enc bl v) (hl : Bool) (m : Option Bytes) (s : EncState) :
+    emplaceAtomic (.int v) bl .int32 enc hl m s true = .error (.encode, s) := by
+  simp [emplaceAtomic, bind, run_bind, rawOfInt32_reject enc hk bl hbl v hr s]
+
 /-- what `extractAtomic` does for an `A_INT32` object when the message is long enough, strict mode -/
 theorem extractAtomic_int32 (enc : Option Enc) (hk : int32Known enc = true) (bl : Nat) (hbl : 1 ≤ bl) (hl : Bool)
     (d : DecState) (hlen : d.cursorByte + (bl + d.cursorBit + 7) / 8 ≤ d.msg.length) :
